@@ -136,6 +136,8 @@ pub struct Env {
     pub words: Vec<WordInfo>,
     pub consts: Vec<String>,
     pub counter: usize,
+    /// (late-declared word, a word that calls it): both defined
+    pub late_pairs: Vec<(String, String)>,
 }
 
 pub struct Gen<'a> {
@@ -449,7 +451,7 @@ impl<'a> Gen<'a> {
         let nested = self.depth >= 3;
         let top_level = self.depth == 0 && !self.in_def && !self.in_meta;
         let pure = self.in_meta;
-        let w: [u32; 30] = [
+        let w: [u32; 31] = [
             10,                                                           // 0 literal
             8,                                                            // 1 stack op
             10,                                                           // 2 arithmetic
@@ -480,6 +482,7 @@ impl<'a> Gen<'a> {
             if self.f.orphans && self.f.bits && !pure { 3 } else { 0 },   // 27 orphan slices
             if self.f.immediates && top_level && self.f.defs { 2 } else { 0 }, // 28 user immediates
             if self.f.wide { 2 } else { 0 },                              // 29 enum / defined / ~) / .s / K
+            if top_level && self.f.late && self.f.defs && self.f.redefine && !self.env.late_pairs.is_empty() { 3 } else { 0 }, // 30 re-bind a late word
         ];
         match self.rng.weighted(&w) {
             0 => {
@@ -514,6 +517,7 @@ impl<'a> Gen<'a> {
             26 => self.pack_op(),
             27 => self.orphan_slice(),
             28 => self.immediate_def(),
+            30 => self.late_rebind(),
             _ => self.misc_op(),
         }
     }
@@ -1204,6 +1208,13 @@ impl<'a> Gen<'a> {
                 let k = self.env.words.len();
                 self.env.words[k - 1].pending = false;
                 self.env.words[k - 2].pending = false;
+                let user = self.env.words[k - 1].name.clone();
+                self.env.late_pairs.push((fw.clone(), user.clone()));
+                if self.rng.chance(1, 2) {
+                    // the first call binds the late word
+                    self.emit(&user);
+                    self.push(Ty::Int);
+                }
             } else {
                 // the user may only be called once the forward word exists: drop it from the env
                 self.env.words.pop();
@@ -1603,6 +1614,18 @@ impl<'a> Gen<'a> {
             self.push(Ty::Int);
             self.env.words.push(WordInfo { name: user, arity: 0, pending: false });
         }
+    }
+
+    /// define the late-declared word anew and call its user: whether the user still calls the old
+    /// definition depends on whether its call site was already bound
+    fn late_rebind(&mut self) {
+        let (target, user) = self.rng.pick(&self.env.late_pairs).clone();
+        let n = format!("{}", 100 + self.rng.below(50));
+        if self.rng.chance(2, 3) {
+            self.emits(&[":", &target, &n, ";"]);
+        }
+        self.emit(&user);
+        self.push(Ty::Int);
     }
 
     fn misc_op(&mut self) {
